@@ -28,7 +28,7 @@ MANIFEST = {
     "note": ("Trusted: Lean kernel + standard axioms; the translator for the header tables; the scripted requester (two "
              "behaviours: answers at once / after one trip round the event loop; responses in request order); weak "
              "references not modelled (services kept alive); Python int()/timedelta modelled for ASCII input; a 200 whose "
-             "TIMEOUT mentions Second- but is not Second-<digits>/Second-infinite is compared but outside the judge; "
+             "TIMEOUT mentions Second- but is not Second-<digits>/Second-infinite is judged in full except for the returned timeout value; "
              "correspondence is sampled (exhaustive to a small depth over a reduced alphabet, random beyond)."),
     "technique": "Lean 4 proof (invariant by induction over call/reaction histories) + generated request tables + model/implementation correspondence",
 }
@@ -229,7 +229,7 @@ EXH_MORE = [
     ["resub", "s", 0, 1800, [R(500), CONN]],                           # fallback unreachable
     ["resub", "i", "uuid:b", 1800, [R(200, "uuid:a", "Second-infinite")]],  # new SID collides
     ["resub", "i", "uuid:c", 1800, [TMO]],
-    ["resub", "i", "uuid:a", 1800, [R(200, "uuid:b", "Second-abc")]],  # garbage timeout after a SID swap (outside C09.ok)
+    ["resub", "i", "uuid:a", 1800, [R(200, "uuid:b", "Second-abc")]],  # garbage timeout after a SID swap (F09b)
     ["resuball", [CONN, R(412), R(200, "uuid:d")]],
     ["unsub", "s", 1, [TMO]],
     ["unsuball", []],
@@ -295,7 +295,7 @@ CORPUS = [
                         ["resub", "i", "uuid:b", 1800, [R(200, "uuid:a")]], ["unsuball", [R(200)]]]},
     # timeouts longer than a day (timedelta.seconds drops the days), empty SID
     {"nsvc": 1, "ops": [["sub", 0, 86405, [R(200, "", "Second-infinite")]], ["resub", "s", 0, 86405, []], ["resub", "i", "", 90000, [R(200)]]]},
-    # garbage granted timeouts (compared with the model, outside the judge)
+    # garbage granted timeouts (F09b: used to raise half-way; judged except for the returned timeout value)
     {"nsvc": 1, "ops": [["sub", 0, 1800, [R(200, "uuid:a", "Second-abc")]], ["sub", 0, 1800, [R(200, "uuid:a", "xSecond-7")]],
                         ["resub", "s", 0, 1800, [R(200, "uuid:b", "Second-99999999999999999999")]]]},
 ]
